@@ -19,21 +19,23 @@ package schemahelper
 //@   requires blockSchema != nil
 //@   ghost depBody after (schemahelper.blockSchema).DependentBodySchema#1 : depSchema
 //@   ghost depRes after (schemahelper.blockSchema).DependentBodySchema#1 : result
-//@   loop 1 invariant [C07,C12,C14,C16,claim] forallkey(k, depSchema.Attributes, implies(visited(k), haskey(mergedSchema.Attributes, k) && mergedSchema.Attributes[k] == depSchema.Attributes[k]))
-//@   loop 2 invariant [C07,C12,C14,C16,claim] forallkey(k, depSchema.Attributes, haskey(mergedSchema.Attributes, k) && mergedSchema.Attributes[k] == depSchema.Attributes[k])
-//@   loop 2 invariant [C07,C12,C14,C16,claim] forallkey(k, depSchema.Blocks, implies(visited(k), haskey(mergedSchema.Blocks, k)))
-//@   ensures [C07,C12,C14,C16] merged != nil && fresh(merged)
-//@   ensures [C07,C12,C14,C16] lookup == depRes
+//@   loop 1 invariant [C07,C09,C10,C12,C13,C14,C15,C16,claim] forallkey(k, depSchema.Attributes, implies(visited(k), haskey(mergedSchema.Attributes, k) && mergedSchema.Attributes[k] == depSchema.Attributes[k]))
+//@   loop 2 invariant [C07,C09,C10,C12,C13,C14,C15,C16,claim] forallkey(k, depSchema.Attributes, haskey(mergedSchema.Attributes, k) && mergedSchema.Attributes[k] == depSchema.Attributes[k])
+//@   loop 2 invariant [C07,C09,C10,C12,C13,C14,C15,C16,claim] forallkey(k, depSchema.Blocks, implies(visited(k), haskey(mergedSchema.Blocks, k)))
+//@   ensures [C07,C09,C10,C12,C13,C14,C15,C16] merged != nil && fresh(merged)
+//@   ensures [C07,C09,C10,C12,C13,C14,C15,C16] lookup == depRes
 //@   ensures [C09,C16,name:targetables-are-overlaid-not-replaced] implies((depRes == LookupSuccessful || depRes == LookupPartiallySuccessful) && blockSchema.Body != nil, len(merged.TargetableAs) >= len(depBody.TargetableAs) && len(merged.TargetableAs) >= len(blockSchema.Body.TargetableAs))
 //@   ensures [C10,C16,name:implied-origins-are-overlaid-not-replaced] implies((depRes == LookupSuccessful || depRes == LookupPartiallySuccessful) && blockSchema.Body != nil, len(merged.ImpliedOrigins) >= len(depBody.ImpliedOrigins) && len(merged.ImpliedOrigins) >= len(blockSchema.Body.ImpliedOrigins))
-//@   ensures [C07,C12,C14,C16] implies(depRes == LookupSuccessful || depRes == LookupPartiallySuccessful, forallkey(k, depBody.Attributes, haskey(merged.Attributes, k) && merged.Attributes[k] == depBody.Attributes[k]))
-//@   ensures [C07,C12,C14,C16] implies(depRes == LookupSuccessful || depRes == LookupPartiallySuccessful, forallkey(k, depBody.Blocks, haskey(merged.Blocks, k)))
+//@   ensures [C07,C09,C10,C12,C13,C14,C15,C16] implies(depRes == LookupSuccessful || depRes == LookupPartiallySuccessful, forallkey(k, depBody.Attributes, haskey(merged.Attributes, k) && merged.Attributes[k] == depBody.Attributes[k]))
+//@   ensures [C07,C09,C10,C12,C13,C14,C15,C16] implies(depRes == LookupSuccessful || depRes == LookupPartiallySuccessful, forallkey(k, depBody.Blocks, haskey(merged.Blocks, k)))
 
 // ---- C16: the value form of a dependency key. Only a value written as a scope traversal becomes an address
 // ---- key; literals (including the keywords true/false/null) are static values.
 //@ contract schemahelper.dependencyKeysFromBlock (block, blockSchema) (result)
 //@   loop 1 iter [C07,C16] len(dk.Labels) == old(len(dk.Labels)) + ite(labelSchema.IsDepKey, 1, 0) && implies(labelSchema.IsDepKey, dk.Labels[len(dk.Labels)-1].Index == i && dk.Labels[len(dk.Labels)-1].Value == block.Labels[i])
 //@   assert before lang.TraversalToAddress#1 : [C16] typeis(attr.Expr, "*hclsyntax.ScopeTraversalExpr")
+//@   ghost evaluated after invoke:Value#1 : true
+//@   loop 2 iter [C15,C16,name:a-key-value-that-evaluates-is-a-key] implies(evaluated && !value.IsNull(), len(dk.Attributes) == old(len(dk.Attributes)) + 1 && dk.Attributes[len(dk.Attributes)-1].Name == name && dk.Attributes[len(dk.Attributes)-1].Expr.Static == value)
 
 // ---- every element is examined: the loops below have no break and no return inside, i.e. they are left only
 // ---- when their range is exhausted (generated from the control-flow graph of the pinned tree with
